@@ -4,7 +4,8 @@
 // (P) oracles on the implementation, each with a replayable case:
 //   enc      Batch.Put/Delete -> Dump() equals an independent reference encoder; Load(Dump()) + Replay returns
 //            the records; Len / internalLen as documented
-//   load     Batch.Load on arbitrary / truncated / bit-flipped bytes: records-or-error equals an independent
+//   load     Batch.Load on arbitrary / truncated / bit-flipped bytes and on length fields of 2^63 and more (the
+//            inputs of the repaired defect batch-load-huge-varint): records-or-error equals an independent
 //            reference decoder of the FORMAT, never a panic, never a loop that does not advance
 //   journal  concurrent writers on a real DB (write merge on): every record of the journal file has a header
 //            whose count is the number of records in its body, the records partition 1..db.seq in order, the
@@ -46,7 +47,6 @@ const (
 	xHeader    = "From GL Require Import Corr.C01Run."
 	xFileChars = 90000 // text per case file (coqc parses string literals slowly)
 
-	knownHugeVarint = "batch-load-huge-varint"
 )
 
 type bRec struct {
@@ -503,8 +503,8 @@ func (o loadObs) coq() string {
 	return "KHang"
 }
 
-// checkLoad: (P) against the reference decoder.  known = the failure is the recorded huge-varint finding.
-func checkLoad(data []byte) (fail string, known bool, kcase string) {
+// checkLoad: (P) against the reference decoder.  huge = a length field of 2^62 or more occurs (distribution only).
+func checkLoad(data []byte) (fail string, huge bool, kcase string) {
 	o := observeLoad(data)
 	rs, code, arg, huge := refDecode(data)
 	kcase = fmt.Sprintf("KBLoad %s %s", coqSegs(data), o.coq())
@@ -531,7 +531,7 @@ func checkLoad(data []byte) (fail string, known bool, kcase string) {
 			return fmt.Sprintf("Load+Replay of %x yields %d records that differ from the %d encoded", clip(data), len(o.ops), len(rs)), huge, kcase
 		}
 	}
-	return "", false, kcase
+	return "", huge, kcase
 }
 
 func clip(b []byte) []byte {
@@ -541,7 +541,8 @@ func clip(b []byte) []byte {
 	return b
 }
 
-// the inputs that demonstrate the recorded finding (a length field that wraps the int offset)
+// length fields that wrapped the int offset before fix d912a49 (defect batch-load-huge-varint): the decoder must
+// report the corruption error on them
 var hugeVarintInputs = [][]byte{
 	{0x00, 0xf5, 0xff, 0xff, 0xff, 0xff, 0xff, 0xff, 0xff, 0xff, 0x01},       // key length 2^64-11: the offset returns to the record start
 	{0x00, 0xff, 0xff, 0xff, 0xff, 0xff, 0xff, 0xff, 0xff, 0x7f},             // key length 2^63-1: o+int(x) overflows
@@ -1193,13 +1194,9 @@ type batchResult struct {
 
 var batchViolations int
 
-func violateBatch(res *vlib.Result, desc string, bc batchCase, known bool) {
-	if known {
-		res.ViolateKnown("batch: "+desc, bc, knownHugeVarint)
-	} else {
-		batchViolations++
-		res.Violate("batch: "+desc, bc)
-	}
+func violateBatch(res *vlib.Result, desc string, bc batchCase) {
+	batchViolations++
+	res.Violate("batch: "+desc, bc)
 }
 
 func runBatchPart(seed uint64, thorough, search bool, res *vlib.Result) []string {
@@ -1252,7 +1249,7 @@ func runBatchPart(seed uint64, thorough, search bool, res *vlib.Result) []string
 		}
 		if fail != "" {
 			if batchViolations < 4 {
-				violateBatch(res, "enc: "+fail, batchCase{BatchKind: "enc", Recs: rs}, false)
+				violateBatch(res, "enc: "+fail, batchCase{BatchKind: "enc", Recs: rs})
 			}
 		}
 		if i < len(directed) || i%7 == 0 || (fail != "" && i%3 == 0) {
@@ -1268,23 +1265,19 @@ func runBatchPart(seed uint64, thorough, search bool, res *vlib.Result) []string
 		} else {
 			data = genLoadInput(r)
 		}
-		fail, known, kc := checkLoad(data)
+		fail, huge, kc := checkLoad(data)
 		res.Count("batch_load_cases", 1)
+		if huge {
+			res.Count("batch_load_huge_length_fields", 1)
+		}
 		if fail != "" {
-			if known {
-				res.Count("batch_load_huge_varint_failures", 1)
-				if i < len(hugeVarintInputs) {
-					violateBatch(res, "load: "+fail, batchCase{BatchKind: "load", Data: data}, true)
-				}
-			} else if batchViolations < 4 {
-				violateBatch(res, "load: "+fail, batchCase{BatchKind: "load", Data: data}, false)
+			if batchViolations < 4 {
+				violateBatch(res, "load: "+fail, batchCase{BatchKind: "load", Data: data})
 			}
+		} else if strings.Contains(kc, "KErr") {
+			res.Count("batch_load_errors", 1)
 		} else {
-			if strings.Contains(kc, "KErr") {
-				res.Count("batch_load_errors", 1)
-			} else {
-				res.Count("batch_load_accepted", 1)
-			}
+			res.Count("batch_load_accepted", 1)
 		}
 		if i < len(hugeVarintInputs) || i%11 == 0 {
 			add("load", kc)
@@ -1306,7 +1299,7 @@ func runBatchPart(seed uint64, thorough, search bool, res *vlib.Result) []string
 		bad := err != nil || !bytes.Equal(rec, groupRecord(gs, seq))
 		if bad && batchViolations < 4 {
 			violateBatch(res, fmt.Sprintf("group: writeBatchesWithHeader(%d batches, seq %d) does not write header(seq, total count) + records: %x", len(bs), seq, clip(rec)),
-				batchCase{BatchKind: "group", Groups: [][][]bRec{gs}, Seed: seq}, false)
+				batchCase{BatchKind: "group", Groups: [][][]bRec{gs}, Seed: seq})
 		}
 		if i%4 == 0 || bad {
 			add("group", fmt.Sprintf("KBGroup %s %d %s", coqGroups(gs), seq, coqSegs(rec)))
@@ -1321,7 +1314,7 @@ func runBatchPart(seed uint64, thorough, search bool, res *vlib.Result) []string
 			res.Count("batch_mem_step_"+s.Op, 1)
 		}
 		if fail != "" && batchViolations < 4 {
-			violateBatch(res, "mem: "+fail, batchCase{BatchKind: "mem", Cmp: cmpID, Steps: steps}, false)
+			violateBatch(res, "mem: "+fail, batchCase{BatchKind: "mem", Cmp: cmpID, Steps: steps})
 		}
 		add("mem", kc)
 	}
@@ -1336,7 +1329,7 @@ func runBatchPart(seed uint64, thorough, search bool, res *vlib.Result) []string
 		res.Count("batch_journal_records", nrec)
 		res.Count("batch_journal_merged_records", merged)
 		if fail != "" && batchViolations < 4 {
-			violateBatch(res, "journal: "+fail, batchCase{BatchKind: "journal", Seed: js, Writers: writers, PerWriter: per}, false)
+			violateBatch(res, "journal: "+fail, batchCase{BatchKind: "journal", Seed: js, Writers: writers, PerWriter: per})
 		}
 		for _, c := range kcs {
 			if jk < 40 && len(c) < 20000 {
